@@ -58,8 +58,24 @@ func (w *World) fieldWriters(pkgRel, typ, field string) []writerSite {
 // callersOf lists node-scope call sites that may call fn (call graph).
 func (w *World) nodeCallers(fn *ssa.Function) []CallerSite {
 	var out []CallerSite
+	seen := map[string]bool{}
 	for _, cs := range w.Callers(fn) {
-		if cs.Caller != nil && w.InModule(cs.Caller) && !w.isClientFunc(cs.Caller) && cs.Caller.Synthetic == "" {
+		if cs.Caller == nil {
+			continue
+		}
+		// an instantiation of a generic function stands for its origin
+		if o := cs.Caller.Origin(); o != nil {
+			cs.Caller = o
+		}
+		if w.InModule(cs.Caller) && !w.isClientFunc(cs.Caller) && cs.Caller.Synthetic == "" {
+			k := w.FName(cs.Caller)
+			if cs.Site != nil {
+				k += "@" + w.InstrPos(cs.Site)
+			}
+			if seen[k] {
+				continue
+			}
+			seen[k] = true
 			out = append(out, cs)
 		}
 	}
@@ -78,6 +94,8 @@ func (w *World) checkWriters(r *Report, rule, pkgRel, typ, field string, allowed
 		seen[key] = true
 		if why, ok := allowed[name]; ok {
 			r.OK(rule, key, "allowed writer: "+why, site(w, x.In))
+		} else if via, ok := w.onlyReachedFrom(x.Fn, allowed, 0, map[*ssa.Function]bool{}); ok {
+			r.OK(rule, key, "helper of an allowed writer: every call of it comes from "+via, site(w, x.In))
 		} else {
 			r.Violate(rule, key, fmt.Sprintf("%s.%s is written outside its primitives (closed set: %s)", typ, field, strings.Join(sortedKeysS(allowed), ", ")), nil, site(w, x.In))
 		}
@@ -88,6 +106,52 @@ func (w *World) checkWriters(r *Report, rule, pkgRel, typ, field string, allowed
 			continue
 		}
 	}
+}
+
+// onlyReachedFrom: every call of fn comes from a function of the allowed set, or
+// from a helper of which the same holds (so a statement moved from an allowed
+// function into a helper stays inside the closed set).
+func (w *World) onlyReachedFrom(fn *ssa.Function, allowed map[string]string, depth int, seen map[*ssa.Function]bool) (string, bool) {
+	if fn == nil || depth > 3 || seen[fn] {
+		return "", false
+	}
+	seen[fn] = true
+	// closures belong to their enclosing function
+	if p := fn.Parent(); p != nil {
+		if _, ok := allowed[w.FName(p)]; ok {
+			return w.FName(p), true
+		}
+		return w.onlyReachedFrom(p, allowed, depth+1, seen)
+	}
+	cs := w.nodeCallers(fn)
+	if len(cs) == 0 {
+		return "", false
+	}
+	var via []string
+	for _, c := range cs {
+		name := w.FName(c.Caller)
+		if _, ok := allowed[name]; ok {
+			via = append(via, name)
+			continue
+		}
+		v, ok := w.onlyReachedFrom(c.Caller, allowed, depth+1, seen)
+		if !ok {
+			return "", false
+		}
+		via = append(via, v)
+	}
+	sort.Strings(via)
+	return strings.Join(dedupStrings(via), ", "), true
+}
+
+func dedupStrings(in []string) []string {
+	var out []string
+	for i, s := range in {
+		if i == 0 || s != in[i-1] {
+			out = append(out, s)
+		}
+	}
+	return out
 }
 
 func sortedKeysS(m map[string]string) []string {
@@ -111,6 +175,8 @@ func (w *World) checkCallers(r *Report, rule string, ref fref, allowed map[strin
 		n++
 		if why, ok := allowed[name]; ok {
 			r.OK(rule, key, "allowed caller: "+why, site(w, cs.Site))
+		} else if via, ok := w.onlyReachedFrom(cs.Caller, allowed, 0, map[*ssa.Function]bool{}); ok {
+			r.OK(rule, key, "helper of an allowed caller: every call of it comes from "+via, site(w, cs.Site))
 		} else {
 			r.Violate(rule, key, fmt.Sprintf("%s is called from %s (closed set of callers: %s)", refStr(ref), name, strings.Join(sortedKeysS(allowed), ", ")), nil, site(w, cs.Site))
 		}
